@@ -28,14 +28,20 @@
   THE DEVIATIONS FROM Spec.lean (section 11 has the witness of each; nothing else is weakened):
 
    1. `sweptLive` — NEW CAUSE.  `KeyStep.expiredRemoved` demands that the removed cell be expired AT THE MOMENT OF THE
-      REMOVAL.  The sweeper decides at its VISIT (`sweep.entry`), on the deadline the INDEX holds, and removes three
-      actions later whatever entry the key holds under the same id; `put_or_update` rewrites the stored deadline in
-      between (or: two racing `put_or_update`s have left the index stale for good).  `sweptLive (c)`: the sweeper removes
-      a cell that is NOT expired — possibly one without any deadline.  A user loses: "a sweep never changes what a read
-      returns" (`read_stable`), "a readable key disappears only by delete / eviction under pressure / shutdown".
-      What remains (`SweeperRemoves`, `JustifiedH`): it is the sweeper's `store.remove` of the id under which the key is
-      stored, and the history holds the visit at which the index deadline of that id had passed.
-      Witnesses: `sweptLive_real`, `sweptLive_stale_index` (a FINDING: no call in flight, no deadline).
+      REMOVAL.  The sweeper CHECKS the stored value at its `kw.remove` action (fix 36c87dc, `unexpiredWithId`: it goes
+      on only if the value stored under the id has expired by its OWN deadline) and removes two actions later whatever
+      entry the key holds under the same id; a `put_or_update` may rewrite the stored deadline of the EXPIRED, not yet
+      removed entry in between (known finding D3).  `sweptLive (c)`: the sweeper removes a cell that is NOT expired.
+      A user loses: "a sweep never changes what a read returns" (`read_stable`) — but only for a key that WAS expired
+      (no read returned it) and was brought back by a `put_or_update` racing with its removal.
+      What remains (`SweeperRemoves`, `JustifiedH`, `sweptLive_needs_rewrite`): it is the sweeper's `store.remove` of
+      the id under which the key is stored; the history holds the visit at which the index deadline of that id had
+      passed, AND the sweeper's check (`kw.remove`) at which the key's cell — stored under that id — WAS EXPIRED,
+      AND, after the check, a `rewritten` step of that key.  Without a `rewritten` step of `k` no sweep changes a
+      lookup of `k` (`sweep_keeps_look_without_rewrite`: Layer A's `read_stable` for sweeps, restored).
+      Witness: `sweptLive_real`.  The two runs that witnessed it BEFORE the fix (the upsert after the sweeper's VISIT
+      but before its check; the index left stale by two overlapping upserts, defect D12) now keep the key:
+      `second_race_fixed`, `stale_index_key_survives`.
    2. `cleared` is the ONE action `shutdown.store_clear` (the seventh of twelve), with the flag already up — not "the end
       of `shutdown()`".  Between `shutdown.cas` and it cells exist while `read` reports absent; after it the call has not
       returned; after the call HAS returned cells may appear again (`installed` by a worker that stood at `store.put`).
@@ -107,8 +113,9 @@ inductive WhyB where
   | deleted
   /-- the sweeper's `store.remove` ACTION, the cell being expired at that moment (no reader could see it any more) -/
   | expiredRemoved
-  /-- **NEW (deviation 1).**  The sweeper's `store.remove` ACTION, the cell being NOT expired at that moment: the index
-      deadline the sweeper found due at its visit is no longer (or never was) the deadline of the stored value.
+  /-- **NEW (deviation 1).**  The sweeper's `store.remove` ACTION, the cell being NOT expired at that moment: the cell
+      WAS expired when the sweeper checked it (`kw.remove`, two sweeper actions earlier) and a `put_or_update` has
+      rewritten its deadline since (`JustifiedH`, `sweptLive_needs_rewrite`).
       A user loses: the guarantee that the sweeper removes only what no reader could see. -/
   | sweptLive
   /-- the worker's `store.remove` ACTION of an eviction, inside a put of ANOTHER key that did not fit when the worker
@@ -645,6 +652,12 @@ theorem KeyStepB.expiredRemoved_inv {now now' : Nat} {c c' : Option Cell}
     ∃ x, c = some x ∧ c' = none ∧ x.expired now = true ∧ now' = now := by
   cases h with
   | expiredRemoved x hn hx => exact ⟨x, rfl, rfl, hx, hn⟩
+
+theorem KeyStepB.sweptLive_inv {now now' : Nat} {c c' : Option Cell}
+    (h : KeyStepB now now' .sweptLive c c') :
+    ∃ x, c = some x ∧ c' = none ∧ x.expired now = false ∧ now' = now := by
+  cases h with
+  | sweptLive x hn hx => exact ⟨x, rfl, rfl, hx, hn⟩
 
 theorem KeyStepB.hidden_inv {now now' : Nat} {c c' : Option Cell} (h : KeyStepB now now' .hidden c c') :
     c' = none := by
